@@ -121,6 +121,12 @@ def handle (st : State) : List String → State × Option String
       else (st, some "bad-op fee-table-too-short")
     | none, _ => (st, some "bad-op no-fee-table")
     | _, none => (st, some "bad-op")
+  -- the announced table of a rate equals `n·num/den` rounded half away from zero
+  | ["builder.oracle.feeformula", bits, num, den] =>
+    match st.tables.lookup bits, num.toNat?, den.toNat? with
+    | some t, some num, some den =>
+      (st, some (toString (den != 0 && (List.range t.size).all fun n => t[n]! == (2 * num * n + den) / (2 * den))))
+    | _, _, _ => (st, some "bad-op")
   -- debugging aid: like `builder.build` but panics are rendered with their full site name
   | ["builder.site", bits, rcp, c0, c1, tgt, out, am, ins, lk, ru] =>
     match st.tables.lookup bits, parseCase rcp c0 c1 tgt out am ins lk ru with
